@@ -140,6 +140,11 @@ impl VectorSelector {
         let classes: Vec<_> = class_union!(search_space, target);
 
         let mut candidates = Vec::from_iter(search_space);
+
+        // the set has no stable iteration order, ties in distance are settled by ref so that
+        // the same store always yields the same selection
+        candidates.sort_by(|a, b| (&a.r#ref.txid, a.r#ref.index).cmp(&(&b.r#ref.txid, b.r#ref.index)));
+
         candidates.sort_by_cached_key(|utxo| utxo.assets.distance(target, &classes));
         candidates.reverse();
 
